@@ -132,9 +132,21 @@ func RuleKAllPostings(c *core.Ctx) {
 func RuleKTranscodeOrder(c *core.Ctx) {
 	const rule = "K-transcode-order"
 	p := c.P
-	fn := p.Func(pkgBeancount, "Transcode")
+	// the function of the transcoder that visits the per-kind slices of a day
+	var fn *ssa.Function
+	for _, cand := range p.SrcFuncs() {
+		if core.PkgPathOf(cand) != pkgBeancount {
+			continue
+		}
+		r := kindReads(p, cand, nil)
+		if len(r["Openings"]) > 0 && len(r["Transactions"]) > 0 && len(r["Closings"]) > 0 {
+			if fn == nil || cand.String() < fn.String() {
+				fn = cand
+			}
+		}
+	}
 	if fn == nil {
-		c.Anchor(rule, "beancount.Transcode")
+		c.Anchor(rule, "the function of lib/journal/beancount that visits a day's Openings, Transactions and Closings")
 		return
 	}
 	reads := kindReads(p, fn, nil)
@@ -268,13 +280,8 @@ func RuleKEmitAll(c *core.Ctx) {
 		if core.PkgPathOf(fn) != pkgBeancount || fn.Parent() != nil {
 			continue
 		}
-		// writer parameter
-		var w *ssa.Parameter
-		for _, prm := range fn.Params {
-			if types.TypeString(prm.Type(), nil) == "io.Writer" {
-				w = prm
-			}
-		}
+		// writer parameter (or a receiver that holds the writer in a field)
+		w := writerRoot(fn)
 		if w == nil || fn.Signature.Results().Len() == 0 {
 			continue
 		}
@@ -373,9 +380,9 @@ func RuleKEmitAll(c *core.Ctx) {
 		var outer []eloop
 		for _, el := range els {
 			nested := false
-			for _, o := range els {
-				if o.h != el.h && o.body[el.h] {
-					nested = true
+			for h, body := range loops {
+				if h != el.h && body[el.h] {
+					nested = true // inside another loop (tracked or not): cannot dominate the function's returns
 				}
 			}
 			if !nested {
@@ -413,6 +420,23 @@ func RuleKEmitAll(c *core.Ctx) {
 			for _, el := range els {
 				if el.h.Dominates(b) {
 					dominatedByWrite = true
+				}
+			}
+			// … also when that loop is nested in a loop over a slice the function was
+			// handed (the transactions of a day)
+			for h, body := range loops {
+				if !h.Dominates(b) {
+					continue
+				}
+				for _, el := range els {
+					if body[el.h] {
+						dominatedByWrite = true
+					}
+				}
+				for _, wb := range writeBlocks {
+					if body[wb] {
+						dominatedByWrite = true
+					}
 				}
 			}
 			if !dominatedByWrite {
@@ -496,6 +520,21 @@ func callWrites(p *core.Prog, call *ssa.Call, w *ssa.Parameter) bool {
 					return true
 				}
 			}
+			// a local struct one of whose fields holds the writer (a state object)
+			if x.Referrers() != nil {
+				for _, r := range *x.Referrers() {
+					if fa, ok := r.(*ssa.FieldAddr); ok {
+						for _, st := range core.StoresTo(fa) {
+							if derivedN(st.Val, depth+1) {
+								return true
+							}
+						}
+					}
+				}
+			}
+		case *ssa.FieldAddr:
+			// a field of the receiver that holds the writer (or a printer on it)
+			return derivedN(x.X, depth+1)
 		}
 		return false
 	}
@@ -509,4 +548,30 @@ func callWrites(p *core.Prog, call *ssa.Call, w *ssa.Parameter) bool {
 		}
 	}
 	return false
+}
+
+
+// writerRoot: the parameter through which fn reaches the output — a parameter
+// of type io.Writer, or a receiver whose struct has an io.Writer field (a
+// state object that carries the writer).
+func writerRoot(fn *ssa.Function) *ssa.Parameter {
+	for _, prm := range fn.Params {
+		if types.TypeString(prm.Type(), nil) == "io.Writer" {
+			return prm
+		}
+	}
+	if fn.Signature.Recv() != nil && len(fn.Params) > 0 {
+		t := fn.Params[0].Type()
+		if pt, ok := t.Underlying().(*types.Pointer); ok {
+			t = pt.Elem()
+		}
+		if st, ok := t.Underlying().(*types.Struct); ok {
+			for i := 0; i < st.NumFields(); i++ {
+				if types.TypeString(st.Field(i).Type(), nil) == "io.Writer" {
+					return fn.Params[0]
+				}
+			}
+		}
+	}
+	return nil
 }
